@@ -45,9 +45,9 @@ func errClass(err error) string {
 	switch {
 	case err == nil:
 		return "nil"
-	case err == io.ErrShortWrite:
+	case err == io.ErrShortWrite || errors.Is(err, io.ErrShortWrite):
 		return "ShortWrite"
-	case err == errInj:
+	case err == errInj || errors.Is(err, errInj):
 		return "inj"
 	case err.Error() == "Seek: invalid whence":
 		return "Whence"
